@@ -223,8 +223,13 @@ def main(chk):
                         #  from one with a pickup; compared only when the notes fill the last measure)
                         fills = max(x["on"] + x["dur"] for x in case["parts"][0]["notes"] if not x["rest"]) == cfg0["T"]
                         if "onset_beat" in cols and fills and len(cfg0["measures"]) >= 2:
-                            a = sorted(zip(np.round(sub["onset_beat"], 3).tolist(), np.round(sub["duration_beat"], 3).tolist(), sub["pitch"].tolist()))
-                            b = sorted(zip(np.round(nb["onset_beat"], 3).tolist(), np.round(nb["duration_beat"], 3).tolist(), nb["pitch"].tolist()))
+                            # (a piece that begins with silence - e.g. a pickup bar that holds only rests - has no trace of
+                            #  that silence in the note array: onsets are then compared relative to the first note)
+                            lead = int(sub["onset_div"].min()) > 0
+                            oa = sub["onset_beat"] - (sub["onset_beat"].min() if lead else 0)
+                            ob = nb["onset_beat"] - (nb["onset_beat"].min() if lead else 0)
+                            a = sorted(zip(np.round(oa, 3).tolist(), np.round(sub["duration_beat"], 3).tolist(), sub["pitch"].tolist()))
+                            b = sorted(zip(np.round(ob, 3).tolist(), np.round(nb["duration_beat"], 3).tolist(), nb["pitch"].tolist()))
                             if any(abs(x[0] - y[0]) > 2e-3 or abs(x[1] - y[1]) > 2e-3 or x[2] != y[2] for x, y in zip(a, b)):
                                 report("note_array_to_score.round_trip_beats", {"expected": a[:6], "got": b[:6]})
                                 break
